@@ -1514,6 +1514,22 @@ func (x *ctx) loopEntry(st *state, fr *frame, b *ssa.BasicBlock, prev *ssa.Basic
 				s.define(f.t)
 			}
 		}
+		if cl.Levels == 3 {
+			// entry(...): the middle level is applied once, in the state in which the loop is entered
+			if fr.loopEntry == nil {
+				fr.loopEntry = map[string]val{}
+			}
+			key := fmt.Sprintf("%p|%s", b, cl.FnName)
+			l2, have := fr.loopEntry[key]
+			if !have {
+				if back {
+					x.fail("entry(...) of loop %d in %s: back edge reached without an entry snapshot", ord, fr.fn)
+				}
+				l2 = x.applyClosure(s, l1, cl.P3, phiEnv(false))
+				fr.loopEntry[key] = l2
+			}
+			return x.applyClosure(s, l2, cl.P3, phiEnv(fresh)).t.s
+		}
 		return x.applyClosure(s, l1, cl.P3, phiEnv(fresh)).t.s
 	}
 	kind := "inv-entry"
@@ -1555,7 +1571,7 @@ func (x *ctx) loopEntry(st *state, fr *frame, b *ssa.BasicBlock, prev *ssa.Basic
 	var snap *state
 	for _, cl := range ls.Invariants {
 		vars := skolemVarsOf(lcon, cl.Expr)
-		if len(vars) == 0 {
+		if len(vars) == 0 || cl.Levels == 3 {
 			continue
 		}
 		if snap == nil {
